@@ -110,3 +110,14 @@ CLAIMED["C02"] = (
     "senders than the binding table holds, mixed-kind target addresses on interleaved ports and two clients of different users run on 8 (thorough: all "
     "22) UDP-capable configurations; TLC validates every observed history, and at Settle that every datagram the path can carry arrived.",
     TB + "; Engine B datagram side (lib/udprun.py); loopback only, paced sends", "5.2")
+CLAIMED["C08"] = (
+    "model_checking", "TLA+ Service model of the four long-lived loops and the fault catalogue (TLC: CanariesSucceed in every state reachable by fault sequences, each former error-propagation site a named deviation that violates it), fault sequences exported by TLC injected into real client/server processes, canary results validated by TLC against TraceService",
+    "TLC checks Service.tla (server accept loop, server datagram loop + association tasks, client accept loop, client datagram loop + reply tasks; twenty "
+    "per-flow faults: silent / garbage / resetting TCP, TLS and WebSocket peers, half local handshakes, unresolvable and refused targets, resets by "
+    "application or target, garbage / replayed / unresolvable / oversized datagrams and replies, three kinds of malformed local datagram, descriptor "
+    "exhaustion at server and client) and that each of eight named deviations - the `?`, inline await or break the code used to have at that place - "
+    "violates CanariesSucceed; every fault sequence up to 2 (thorough: 3) is exported per family; all single faults and a sample of longer sequences are "
+    "injected into running client + server pairs (Shadowsocks tcp_and_udp behind recording middleboxes, Trojan/VMess over tls and wss, VMess over tcp and "
+    "ws; descriptor limit 160; silent peers stay connected), histories accumulate on the same processes, and after each sequence a fresh TCP flow, a "
+    "fresh datagram exchange and an exchange on the session the faults touched must work; TLC validates the recorded runs.",
+    TB + "; Engine B (lib/faults.py); loopback; a canary gets two attempts", "5.8")
